@@ -121,6 +121,23 @@ func runCBC(c cbcCase, r *pb.Rec) error {
 	if err != nil || n != len(c.Plain) || !bytes.Equal(out[:n], c.Plain) {
 		return fmt.Errorf("AESCBCDecrypt(inplace=%v) = %d, %v (%x) want %x", c.InPlaceDec, n, err, out[:max(n, 0)], c.Plain)
 	}
+	// the same key again with another IV and plaintext: no state may be carried over between calls
+	iv2 := append([]byte(nil), c.IV...)
+	for i := range iv2 {
+		iv2[i] ^= byte(0x5c + i)
+	}
+	plain2 := append(append([]byte("second "), c.Plain...), c.Key[:len(c.Plain)%7]...)
+	pad2 := refPad(plain2, 16)
+	want2 := make([]byte, len(pad2))
+	cipher.NewCBCEncrypter(blk, iv2).CryptBlocks(want2, pad2)
+	dst2 := make([]byte, cryptz.AESCBCEncryptLen(plain2))
+	if err := cryptz.AESCBCEncrypt(dst2, plain2, key, iv2); err != nil || !bytes.Equal(dst2, want2) {
+		return fmt.Errorf("second AESCBCEncrypt under the same key (other IV) = %x, %v want %x", dst2, err, want2)
+	}
+	out2 := make([]byte, len(want2))
+	if n2, err := cryptz.AESCBCDecrypt(out2, want2, key, iv2); err != nil || !bytes.Equal(out2[:n2], plain2) {
+		return fmt.Errorf("second AESCBCDecrypt under the same key (other IV) = %x, %v want %x", out2[:max(n2, 0)], err, plain2)
+	}
 	r.ClassIf(len(c.Plain)%16 == 0, "full-block padding")
 	r.ClassIf(len(c.Plain) == 0, "empty plaintext")
 	r.ClassIf(c.InPlaceEnc || c.InPlaceDec, "in place")
@@ -179,6 +196,7 @@ type gcmCase struct {
 	InPlaceEnc, InPlaceDec bool
 	CorruptWhere           int // 0 none 1 ciphertext||tag 2 nonce 3 aad 4 truncate 5 extend
 	CorruptBit             int
+	Nonce2                 g.B // a second message under the SAME key with a nonce of (usually) another size
 }
 
 func genGCM(t *rapid.T) gcmCase {
@@ -191,6 +209,7 @@ func genGCM(t *rapid.T) gcmCase {
 		InPlaceDec:   rapid.Bool().Draw(t, "inplaceDec"),
 		CorruptWhere: rapid.IntRange(0, 5).Draw(t, "where"),
 		CorruptBit:   rapid.IntRange(0, 1<<20).Draw(t, "bit"),
+		Nonce2:       g.BytesLen(rapid.IntRange(0, 16).Draw(t, "n2len")).Draw(t, "nonce2"),
 	}
 }
 
@@ -266,6 +285,33 @@ func runGCM(c gcmCase, r *pb.Rec) error {
 		}
 	} else if err == nil {
 		return fmt.Errorf("AESGCMDecrypt accepted corrupted input (where=%d bit=%d)", c.CorruptWhere, c.CorruptBit)
+	}
+	// same key again, other nonce size: results must still equal the standard library's (no state kept between calls)
+	if len(c.Nonce2) > 0 {
+		ref2, err2 := cipher.NewGCMWithNonceSize(blk, len(c.Nonce2))
+		if err2 == nil {
+			want2 := ref2.Seal(nil, c.Nonce2, c.Plain, c.AAD)
+			dst2 := make([]byte, len(want2))
+			var e2 error
+			if perr := pb.Catch(func() { e2 = cryptz.AESGCMEncrypt(dst2, c.Plain, c.Key, c.Nonce2, c.AAD) }); perr != nil {
+				return fmt.Errorf("second AESGCMEncrypt with the same key and a %d-byte nonce after a %d-byte one: %v", len(c.Nonce2), len(c.Nonce), perr)
+			}
+			if e2 != nil || !bytes.Equal(dst2, want2) {
+				return fmt.Errorf("second AESGCMEncrypt with the same key and a %d-byte nonce after a %d-byte one = %x, %v want %x", len(c.Nonce2), len(c.Nonce), dst2, e2, want2)
+			}
+			out2 := make([]byte, len(c.Plain))
+			if e := cryptz.AESGCMDecrypt(out2, want2, c.Key, c.Nonce2, c.AAD); e != nil || !bytes.Equal(out2, c.Plain) {
+				return fmt.Errorf("second AESGCMDecrypt with the same key and a %d-byte nonce: %v", len(c.Nonce2), e)
+			}
+			r.ClassIf(len(c.Nonce2) != len(c.Nonce), "same key, two nonce sizes")
+		}
+	} else {
+		// empty nonce: an error, not a panic
+		var e2 error
+		if perr := pb.Catch(func() { e2 = cryptz.AESGCMEncrypt(make([]byte, len(c.Plain)+16), c.Plain, c.Key, nil, c.AAD) }); perr != nil || e2 == nil {
+			return fmt.Errorf("AESGCMEncrypt with an empty nonce: error %v, panic %v (want an error)", e2, perr)
+		}
+		r.Class("empty nonce rejected")
 	}
 	r.ClassIf(c.CorruptWhere == 1 && len(ct) > 0 && c.CorruptBit%(len(ct)*8)/8 >= len(ct)-16, "tag bit flipped")
 	r.ClassIf(c.CorruptWhere == 1, "ciphertext/tag corrupted")
@@ -481,7 +527,7 @@ func init() {
 		Rule: "keys 16/24/32, 16-byte IV, plaintext 0..80 biased to block boundaries, fresh (dirty) or documented in-place dst; oracle crypto/cipher CBC over reference PKCS#7, length helpers, decrypt == plaintext; non-trivial = block-aligned plaintext or in-place layout"},
 		genCBC, runCBC)
 	pb.Register("key_sizes", pb.Options{Base: 800, Rule: "every key length 0..40 for the four AES entry points; oracle error <=> length not in {16,24,32}; non-trivial = invalid length"}, genKey, runKey)
-	pb.Register("gcm", pb.Options{Base: 8000, Required: []string{"tag bit flipped", "nonce corrupted", "aad corrupted", "in place", "non-standard nonce size"},
+	pb.Register("gcm", pb.Options{Base: 8000, Required: []string{"tag bit flipped", "nonce corrupted", "aad corrupted", "in place", "non-standard nonce size", "same key, two nonce sizes", "empty nonce rejected"},
 		Rule: "keys 16/24/32, nonce 1..16 bytes, AAD 0..40, plaintext 0..80, in-place layouts; single-bit flips over ciphertext||tag, nonce, AAD, truncation, extension; oracle crypto/cipher GCM Seal/Open; non-trivial = corruption or in-place case"},
 		genGCM, runGCM)
 	pb.Register("pkcs7", pb.Options{Base: 12000, Required: []string{"full-block padding", "near-valid padding", "un-padding rejected", "un-padding accepted"},
